@@ -33,6 +33,9 @@ ELEMENT_GETTERS = {"get", "values", "items", "keys", "__getitem__"}
 NX_READS = {"subgraph", "predecessors", "successors", "nodes", "edges", "has_node", "has_edge", "in_edges", "out_edges", "neighbors", "in_degree", "out_degree", "number_of_nodes", "reverse"}
 FRESH_CALLS = {"dict", "list", "set", "tuple", "frozenset", "sorted", "copy.copy", "copy.deepcopy", "str", "repr", "len", "bool", "int", "float"}
 
+SHALLOW_COPY_CALLS = {"copy.copy", "dict", "list", "set"}
+SHALLOW = "<shallow>"
+
 PURE_EXTERNALS = {
     "isinstance", "issubclass", "len", "str", "repr", "type", "id", "hasattr", "print", "bool", "int", "float", "hash", "callable", "iter", "next",
     "dict", "list", "set", "tuple", "frozenset", "sorted", "reversed", "enumerate", "zip", "any", "all", "min", "max", "sum", "getattr", "format",
@@ -159,6 +162,9 @@ class Effects:
             d = dotted(e.func)
             if d == "getattr" and len(e.args) >= 2 and isinstance(e.args[1], ast.Constant) and isinstance(e.args[1].value, str):
                 return {(r, _cap(p + (e.args[1].value,))) for r, p in self.paths(e.args[0], env)}
+            # shallow copies: a fresh top-level object whose fields / elements are shared with the source
+            if d in SHALLOW_COPY_CALLS and len(e.args) == 1 and not e.keywords:
+                return {(r, _cap(p + (SHALLOW,), 5)) for r, p in self.paths(e.args[0], env)}
             if d in ("reversed", "iter", "enumerate", "zip") and e.args:
                 out = set()
                 for a in e.args:
@@ -180,6 +186,20 @@ class Effects:
         env = self.env(f)
 
         def add(kind: str, root: str, path: Path, node: ast.AST, detail: str = "") -> None:
+            if SHALLOW in path:
+                # effects on the fresh top level of a shallow copy are not effects on the source;
+                # anything below it (a field's object, an element) is shared with the source
+                i = len(path) - 1 - path[::-1].index(SHALLOW)
+                rest = tuple(x for x in path[i + 1 :])
+                if rest[:1] == ("__dict__",):
+                    rest = rest[1:]
+                    if kind == "mutate" and len(rest) == 0:
+                        return  # the copy's own attribute dict
+                if kind == "write" and len(rest) == 1:
+                    return
+                if kind == "mutate" and len(rest) == 0:
+                    return
+                path = tuple(x for x in path if x != SHALLOW)
             out.setdefault(root, set()).add(Effect(kind, _cap(path), f.qname, getattr(node, "lineno", 0), detail))
 
         def add_all(kind: str, ps: Iterable[tuple[str, Path]], node: ast.AST, detail: str = "", extra: Path = ()) -> None:
